@@ -5,32 +5,6 @@
 #ifndef NMEN
 #define NMEN 3
 
-// K-man position with a given side to move; every extra man of any kind/colour (all present when ALLPRESENT).
-static void symbolicBoardAnyMover(Brd& b, bool wtm) {
-    b.men[0].p = Piece::WKING; b.men[1].p = Piece::BKING;
-    for (int k = 0; k < NMEN; k++) { b.men[k].s = nondet_int(); ASSUME(b.men[k].s >= 0 && b.men[k].s < 64); }
-    for (int k = 2; k < NMEN; k++) {
-        int p = nondet_int(); ASSUME(p >= 0 && p <= 12 && p != Piece::WKING && p != Piece::BKING);
-        ASSUME(!((p == Piece::WPAWN || p == Piece::BPAWN) && (b.men[k].s < 8 || b.men[k].s >= 56)));
-#ifdef ALLPRESENT
-        ASSUME(p != 0);
-#endif
-        b.men[k].p = p;
-    }
-    for (int k = 0; k < NMEN; k++) for (int l = k + 1; l < NMEN; l++) ASSUME(b.men[k].p == 0 || b.men[l].p == 0 || b.men[k].s != b.men[l].s);
-    b.wtm = wtm;
-    b.castle = nondet_int(); b.ep = nondet_int();
-    ASSUME(b.castle >= 0 && b.castle <= 15);
-    if (b.castle & 1) ASSUME(pieceAt(b, E1) == Piece::WKING && pieceAt(b, A1) == Piece::WROOK);
-    if (b.castle & 2) ASSUME(pieceAt(b, E1) == Piece::WKING && pieceAt(b, H1) == Piece::WROOK);
-    if (b.castle & 4) ASSUME(pieceAt(b, E8) == Piece::BKING && pieceAt(b, A8) == Piece::BROOK);
-    if (b.castle & 8) ASSUME(pieceAt(b, E8) == Piece::BKING && pieceAt(b, H8) == Piece::BROOK);
-    if (b.ep != -1) {
-        if (b.wtm) { ASSUME(b.ep >= 40 && b.ep <= 47); ASSUME(pieceAt(b, b.ep) == 0 && pieceAt(b, b.ep - 8) == Piece::BPAWN); }
-        else       { ASSUME(b.ep >= 16 && b.ep <= 23); ASSUME(pieceAt(b, b.ep) == 0 && pieceAt(b, b.ep + 8) == Piece::WPAWN); }
-    }
-    ASSUME(!attacked(b, kingSq(b, !b.wtm), b.wtm));
-}
 #endif
 
 // ------------------------------------------------------------------ oracle: rules of chess over a list of men
@@ -57,11 +31,25 @@ static bool onLine(int a, int b, bool diag, bool ortho) {
     if (a == b) return false;
     return (ortho && (dx == 0 || dy == 0)) || (diag && iabs(dx) == iabs(dy));
 }
+// Line of sight.  Default: through the 7-step ray fill of models.h, whose equality with the engine's magic-table look-up AND
+// with a naive ray walk is proved for every square and occupancy by C01-O1 (h_rook/h_bishop).  The rules logic (who may
+// move where, what is check, what is legal) stays an independent restatement; only this geometric primitive is shared with
+// the code under test, which turns an otherwise very hard equivalence query into an easy one.  -DORACLE_GEOMETRIC selects the
+// fully independent coordinate-arithmetic version.
+static U64 occOf(const Brd& b) { U64 o = 0; for (int k = 0; k < NMEN; k++) if (b.men[k].p != 0) o |= 1ULL << b.men[k].s; return o; }
+#ifdef ORACLE_GEOMETRIC
 static bool pathClear(const Brd& b, int from, int to) {
     bool ok = true;
     for (int k = 0; k < NMEN; k++) if (b.men[k].p != 0 && strictlyBetween(from, to, b.men[k].s)) ok = false;
     return ok;
 }
+#else
+static bool pathClear(const Brd& b, int from, int to) {
+    U64 occ = occOf(b);
+    U64 a = onLine(from, to, false, true) ? model_rookAttacks(Square(from), occ) : model_bishopAttacks(Square(from), occ);
+    return ((a >> to) & 1) != 0;
+}
+#endif
 // does the man (p on s) attack square t on board b?
 static bool manAttacks(const Brd& b, int p, int s, int t) {
     int dx = (t & 7) - (s & 7), dy = (t >> 3) - (s >> 3), adx = iabs(dx), ady = iabs(dy);
@@ -177,32 +165,6 @@ static void symbolicBoard(Brd& b, int& moverIdx) {
 #ifdef ALLPRESENT
     for (int k = 2; k < NMEN; k++) ASSUME(b.men[k].p != 0);      // exactly NMEN men (fewer men are covered by the smaller-K unit)
 
-// K-man position with a given side to move; every extra man of any kind/colour (all present when ALLPRESENT).
-static void symbolicBoardAnyMover(Brd& b, bool wtm) {
-    b.men[0].p = Piece::WKING; b.men[1].p = Piece::BKING;
-    for (int k = 0; k < NMEN; k++) { b.men[k].s = nondet_int(); ASSUME(b.men[k].s >= 0 && b.men[k].s < 64); }
-    for (int k = 2; k < NMEN; k++) {
-        int p = nondet_int(); ASSUME(p >= 0 && p <= 12 && p != Piece::WKING && p != Piece::BKING);
-        ASSUME(!((p == Piece::WPAWN || p == Piece::BPAWN) && (b.men[k].s < 8 || b.men[k].s >= 56)));
-#ifdef ALLPRESENT
-        ASSUME(p != 0);
-#endif
-        b.men[k].p = p;
-    }
-    for (int k = 0; k < NMEN; k++) for (int l = k + 1; l < NMEN; l++) ASSUME(b.men[k].p == 0 || b.men[l].p == 0 || b.men[k].s != b.men[l].s);
-    b.wtm = wtm;
-    b.castle = nondet_int(); b.ep = nondet_int();
-    ASSUME(b.castle >= 0 && b.castle <= 15);
-    if (b.castle & 1) ASSUME(pieceAt(b, E1) == Piece::WKING && pieceAt(b, A1) == Piece::WROOK);
-    if (b.castle & 2) ASSUME(pieceAt(b, E1) == Piece::WKING && pieceAt(b, H1) == Piece::WROOK);
-    if (b.castle & 4) ASSUME(pieceAt(b, E8) == Piece::BKING && pieceAt(b, A8) == Piece::BROOK);
-    if (b.castle & 8) ASSUME(pieceAt(b, E8) == Piece::BKING && pieceAt(b, H8) == Piece::BROOK);
-    if (b.ep != -1) {
-        if (b.wtm) { ASSUME(b.ep >= 40 && b.ep <= 47); ASSUME(pieceAt(b, b.ep) == 0 && pieceAt(b, b.ep - 8) == Piece::BPAWN); }
-        else       { ASSUME(b.ep >= 16 && b.ep <= 23); ASSUME(pieceAt(b, b.ep) == 0 && pieceAt(b, b.ep + 8) == Piece::WPAWN); }
-    }
-    ASSUME(!attacked(b, kingSq(b, !b.wtm), b.wtm));
-}
 #endif
     b.castle = nondet_int(); b.ep = nondet_int();
     ASSUME(b.castle >= 0 && b.castle <= 15);
@@ -244,4 +206,5 @@ static void symbolicBoardAnyMover(Brd& b, bool wtm) {
     }
     ASSUME(!attacked(b, kingSq(b, !b.wtm), b.wtm));
 }
+
 #endif
